@@ -10,6 +10,7 @@ import (
 	"sync"
 
 	"github.com/polynetwork/poly/common/config"
+	scom "github.com/polynetwork/poly/native/service/cross_chain_manager/common"
 
 	"verifh/kit/vio"
 )
@@ -75,6 +76,17 @@ func (u *Universe) expected(h []Step, step *Step) (reqs []ReqRec, leaves []strin
 			r, l := u.expectReq(st)
 			reqs = append(reqs, r)
 			leaves = append(leaves, l)
+		case st.Act == "relay" && st.Ok:
+			if st.Pre {
+				leaves = append(leaves, leafHash(ownLeafData(st.Tx)))
+			}
+			for _, p := range []*Part{st.A, st.B} {
+				if p.Acc {
+					r, l := u.expectReq(p.step(st.Tx))
+					reqs = append(reqs, r)
+					leaves = append(leaves, l)
+				}
+			}
 		}
 	}
 	sort.Slice(reqs, func(a, b int) bool { return reqs[a].Key < reqs[b].Key })
@@ -86,7 +98,7 @@ func (u *Universe) compare(e *edgeJ, g *Got, p *Proj) []string {
 	var what []string
 	st := &e.Step
 	failed := g.Err != "" || g.Panic != ""
-	if st.Act == "import" && !st.Acc {
+	if (st.Act == "import" && !st.Acc) || (st.Act == "relay" && !st.Ok) {
 		// predicted: not accepted, nothing changes.  (An answer "success" that changes nothing is tolerated: the vote
 		// router ignores late votes that way.)
 		if g.Changed || len(g.Leaves) > 0 {
@@ -114,7 +126,7 @@ func (u *Universe) compare(e *edgeJ, g *Got, p *Proj) []string {
 	if !reflect.DeepEqual(er, p.Req) {
 		what = append(what, "req")
 	}
-	if !eqStr(el, p.Lv) {
+	if !eqStr(sortedCopy(el), sortedCopy(p.Lv)) { // a bag: the order of leaves inside one transaction is free
 		what = append(what, "leaves")
 	}
 	return what
@@ -142,7 +154,15 @@ func xcEdges(cfg Config) {
 			st := &e.H[k]
 			g := r.apply(st)
 			accepted := g.Err == "" && g.Panic == "" && (st.Act != "import" || g.Changed)
-			if (st.Act == "import" && accepted != st.Acc) || (st.Act != "import" && !accepted) {
+			if st.Act == "relay" {
+				if accepted != st.Ok {
+					mu.Lock()
+					ndiv++
+					mu.Unlock()
+					vio.Emit(map[string]interface{}{"diverged": true, "idx": i, "at": k, "step": st, "got": g})
+					return
+				}
+			} else if (st.Act == "import" && accepted != st.Acc) || (st.Act != "import" && !accepted) {
 				mu.Lock()
 				ndiv++
 				mu.Unlock()
@@ -155,6 +175,9 @@ func xcEdges(cfg Config) {
 		what := u.compare(e, g, p)
 		st := &e.Step
 		key := fmt.Sprintf("%s|%s|%s|%s|%d|%v|%v|%s|%v|%v|%v", st.Act, st.C, st.S, st.T, st.V, st.Ok, st.Acc, st.Why, p.Reg, p.Blk, doneKey2(p.Done))
+		if st.Act == "relay" {
+			key += fmt.Sprintf("|%v|%v|%+v|%+v", st.Pre, st.Catch, *st.A, *st.B)
+		}
 		mu.Lock()
 		if st.Act != "import" || st.Why != "not-authentic" {
 			distinct[key] = true
@@ -247,6 +270,10 @@ type eventJ struct {
 	Kind  string      `json:"kind"`
 	Err   string      `json:"err,omitempty"`
 	Panic string      `json:"panic,omitempty"`
+	Pre   bool        `json:"pre"`
+	Catch bool        `json:"catch"`
+	A     *Part       `json:"a,omitempty"`
+	B     *Part       `json:"b,omitempty"`
 }
 
 // recorder turns executed steps into trace events (projection decoded back into the model's terms).
@@ -270,8 +297,11 @@ func resetEvent(r *Run) *eventJ {
 
 func (rc *recorder) step(st *Step) *eventJ {
 	r, u := rc.r, rc.r.u
-	if st.Act == "import" {
+	if st.Act == "import" || st.Act == "relay" {
 		rc.txByHash[hex.EncodeToString(u.txHash(uint32(st.Tx)))] = st.Tx
+	}
+	if st.Act == "relay" {
+		rc.leafTerm[leafHash(ownLeafData(st.Tx))] = MVTerm{Tx: st.Tx, Src: "relay", Id: "", To: "", Var: 0}
 	}
 	prev := r.project()
 	g := r.apply(st)
@@ -296,6 +326,27 @@ func (rc *recorder) step(st *Step) *eventJ {
 		if !old[q.Key+"="+q.Val] {
 			rc.leafTerm[leafHash(vio.UnHex(q.Val))] = t
 		}
+	}
+	if st.Act == "relay" {
+		// observed verdict per part: its request (destination, this tx) exists now and did not before
+		ev.Pre, ev.Catch = st.Pre, st.Catch
+		txh := u.txHash(uint32(st.Tx))
+		for k, pt := range []*Part{st.A, st.B} {
+			key := hex.EncodeToString(append(append([]byte(scom.REQUEST), u64le(u.chains[pt.T].ID)...), txh...))
+			q := &Part{S: pt.S, I: pt.I, T: pt.T, V: pt.V, Ok: pt.Ok, Why: "logged"}
+			for _, rq := range p.Req {
+				if rq.Key == key && !ev.Fail {
+					q.Acc = true
+				}
+			}
+			if k == 0 {
+				ev.A = q
+			} else {
+				ev.B = q
+			}
+		}
+		ev.Acc = !ev.Fail
+		ev.Ok = !ev.Fail
 	}
 	for _, l := range p.Lv {
 		t, ok := rc.leafTerm[l]
@@ -325,7 +376,7 @@ func xcRecord(cfg Config, ntraces, length int) {
 			st := &Step{}
 			d := rng.Intn(100)
 			switch {
-			case d < 70:
+			case d < 66:
 				st.Act = "import"
 				st.S, st.I = cfg.Src[rng.Intn(len(cfg.Src))], cfg.Ids[rng.Intn(len(cfg.Ids))]
 				if lastSrc != "" && rng.Intn(4) == 0 { // replay pressure
@@ -336,7 +387,34 @@ func xcRecord(cfg Config, ntraces, length int) {
 				tx++
 				st.Tx = tx
 				lastSrc, lastID = st.S, st.I
-			case d < 77:
+			case d < 74 && len(cfg.Tgt) >= 2:
+				// relay transaction: two imports in one transaction; the second one goes to an open destination
+				pj := r.project()
+				open := []string{}
+				for _, t := range cfg.Tgt {
+					if u.chains[t].kind != 'r' && contains(pj.Reg, t) && !contains(pj.Blk, t) {
+						open = append(open, t)
+					}
+				}
+				ta := cfg.Tgt[rng.Intn(len(cfg.Tgt))]
+				var tb string
+				for _, t := range open {
+					if t != ta && (tb == "" || rng.Bool()) {
+						tb = t
+					}
+				}
+				if tb == "" {
+					st.Act = "newblock"
+					break
+				}
+				tx++
+				st.Act, st.Tx, st.Pre, st.Catch = "relay", tx, rng.Bool(), rng.Bool()
+				st.A = &Part{S: cfg.Src[rng.Intn(len(cfg.Src))], I: cfg.Ids[rng.Intn(len(cfg.Ids))], T: ta, V: cfg.Vars[rng.Intn(len(cfg.Vars))], Ok: true}
+				st.B = &Part{S: cfg.Src[rng.Intn(len(cfg.Src))], I: cfg.Ids[rng.Intn(len(cfg.Ids))], T: tb, V: cfg.Vars[rng.Intn(len(cfg.Vars))], Ok: rng.Intn(4) != 0}
+				if rng.Intn(3) == 0 { // the same message twice in one transaction
+					st.B.S, st.B.I = st.A.S, st.A.I
+				}
+			case d < 80:
 				st.Act, st.C = "black", chains[rng.Intn(len(chains))]
 			case d < 88:
 				st.Act, st.C = "white", chains[rng.Intn(len(chains))]
@@ -386,4 +464,13 @@ func workers() int {
 		n = 16
 	}
 	return n
+}
+
+func contains(l []string, x string) bool {
+	for _, y := range l {
+		if y == x {
+			return true
+		}
+	}
+	return false
 }
